@@ -507,15 +507,15 @@ Lemma LI_finish : forall s s' l drop, LI s -> h_err (H s) = 0 ->
   Forall (fun t => terminal (snd (fst t))) l ->
   Permutation (live s) (map snd l ++ drop ++ live s') ->
   H s' = nseq l (H s) -> NoDup (map fst (pend (P s'))) -> cm_b (P s') = None ->
-  LI s' /\ frame (H s) (H s').
+  LI s' /\ frame (H s) (H s') /\ (forall x, In x (map snd l) -> nterm (hgot (H s') (sr x)) = 1%nat).
 Proof.
   intros s s' l drop Li He Hf Hp Hh Hk Hc.
   assert (Hok : Forall (ok_slot (H s)) (map snd l ++ drop ++ live s')).
   { eapply Permutation_Forall; [exact Hp | apply Li]. }
   assert (Hnd : NoDup (map sr (map snd l ++ drop ++ live s'))).
   { eapply Permutation_NoDup; [apply Permutation_map; exact Hp | apply Li]. }
-  destruct (finish_seq l (drop ++ live s') (H s) (li_h s Li) He Hf Hok Hnd) as (Hi' & Hfr & Hok' & _ & _).
-  rewrite <- Hh in *. split; [|exact Hfr]. constructor; auto.
+  destruct (finish_seq l (drop ++ live s') (H s) (li_h s Li) He Hf Hok Hnd) as (Hi' & Hfr & Hok' & Hone & _).
+  rewrite <- Hh in *. split; [|split; [exact Hfr | exact Hone]]. constructor; auto.
   - apply Forall_app in Hok'. apply Hok'.
   - rewrite !map_app in Hnd. apply NoDup_app_r in Hnd. apply NoDup_app_r in Hnd. exact Hnd.
 Qed.
@@ -568,6 +568,13 @@ Proof.
     replace (x ++ d ++ a ++ b' ++ c) with ((x ++ d) ++ a ++ (b' ++ c)) by (rewrite <- !app_assoc; reflexivity).
     apply Permutation_app_swap_app.
 Qed.
+Lemma perm_tail3 : forall A (a b c c' x : list A),
+  Permutation c (x ++ c') -> Permutation (a ++ b ++ c) (x ++ [] ++ a ++ b ++ c').
+Proof.
+  intros A a b c c' x Hp. cbn [app]. transitivity (a ++ b ++ x ++ c').
+  - do 2 apply Permutation_app_head. exact Hp.
+  - rewrite (app_assoc a b (x ++ c')), (app_assoc a b c'). apply Permutation_app_swap_app.
+Qed.
 Lemma perm_head : forall A (a a' c x d : list A),
   Permutation a (x ++ d ++ a') -> Permutation (a ++ c) (x ++ d ++ a' ++ c).
 Proof. intros A a a' c x d Hp. apply (perm_mid A [] a a' c x d Hp). Qed.
@@ -614,4 +621,813 @@ Proof.
     intros r Hr1 Hr2. apply in_map_iff in Hr1. destruct Hr1 as (y & <- & Hy). apply Hfresh in Hy.
     apply in_map_iff in Hr2. destruct Hr2 as (z & Ez & Hz).
     pose proof (li_ok s Li) as Hok. rewrite Forall_forall in Hok. destruct (Hok z Hz) as (A & _). lia.
+Qed.
+
+Lemma filter_implies : forall A (p q : A -> bool) l, (forall x, p x = true -> q x = true) ->
+  filter q (filter p l) = filter p l.
+Proof.
+  intros A p q l Hi. induction l as [|a l IH]; [reflexivity|]. cbn. destruct (p a) eqn:E; [|exact IH].
+  cbn. rewrite (Hi a E), IH. reflexivity.
+Qed.
+Lemma map_snd_triples : forall (sc : obj -> src) (f : obj -> res) (xs : list slot),
+  map snd (map (fun x => (sc, f, x)) xs) = xs.
+Proof. intros. rewrite map_map. cbn. apply map_id. Qed.
+Lemma Forall_triples : forall (sc : obj -> src) (f : obj -> res) (xs : list slot), terminal f ->
+  Forall (fun t : (obj -> src) * (obj -> res) * slot => terminal (snd (fst t))) (map (fun x => (sc, f, x)) xs).
+Proof. intros sc f xs Hf. apply Forall_forall. intros t Ht. apply in_map_iff in Ht. destruct Ht as (x & <- & _). exact Hf. Qed.
+Lemma terminal_const : forall c v w, c =? cCommitted = false -> terminal (fun _ => mkRes c v w).
+Proof. intros c v w Hc o. exact Hc. Qed.
+
+(* removing from the pending map the entries that satisfy [p] (all of them in live shards)
+   and notifying exactly those *)
+Lemma pend_split : forall s (p : N * slot -> bool),
+  (forall kv, p kv = true -> alive s kv = true) ->
+  Permutation (live_pend s)
+    (map snd (filter p (pend (P s))) ++ map snd (filter (alive s) (filter (fun kv => negb (p kv)) (pend (P s))))).
+Proof.
+  intros s p Hp. unfold live_pend. rewrite <- map_app. apply Permutation_map.
+  rewrite <- (filter_implies _ p (alive s) (pend (P s)) Hp).
+  rewrite (filter_filter_comm _ (alive s) p). rewrite (filter_filter_comm _ (alive s) (fun kv => negb (p kv))).
+  apply perm_filter_split.
+Qed.
+
+Lemma gc_at_LI : forall s k now, LI s -> h_err (H s) = 0 ->
+  LI (gc_at s k now) /\ frame (H s) (H (gc_at s k now)).
+Proof.
+  intros s k now Li He. unfold gc_at.
+  destruct (p_stop (P s) k) eqn:Est; [split; [exact Li | apply frame_refl; exact He]|].
+  destruct (sub64 now (p_lastgc (P s) k) <? gc_tick); [split; [exact Li | apply frame_refl; exact He]|].
+  cut (forall X Y Z : Prop, X /\ Y /\ Z -> X /\ Y); [intros Hcut; eapply Hcut | tauto].
+  set (expired := fun kv : N * slot => (fst kv mod cps s =? k) && (o_dl (h_objs (H s) (so (snd kv))) <? now)).
+  set (sc := fun o : obj => SGc now (o_dl o)). set (f := fun _ : obj => mkRes cTimeout 0 0).
+  apply (LI_finish s _ (map (fun x => (sc, f, x)) (map snd (filter expired (pend (P s))))) [] Li He).
+  - apply Forall_triples. apply terminal_const. reflexivity.
+  - rewrite map_snd_triples. cbn [app]. unfold live. apply perm_head with (d := []). cbn [app].
+    apply (pend_split s expired). intros kv Hk. unfold expired in Hk. apply andb_true_iff in Hk. destruct Hk as [Hk _].
+    apply N.eqb_eq in Hk. unfold alive. rewrite Hk, Est. reflexivity.
+  - cbn. apply notifyf_all_nseq.
+  - cbn. apply NoDup_map_filter. apply Li.
+  - cbn. apply Li.
+Qed.
+
+Lemma LI_weaken : forall s s' drop, LI s -> HI (H s') ->
+  (forall y, ok_slot (H s) y -> ok_slot (H s') y) ->
+  Permutation (live s) (drop ++ live s') ->
+  NoDup (map fst (pend (P s'))) -> cm_b (P s') = None -> LI s'.
+Proof.
+  intros s s' drop Li Hi Hold Hp Hk Hc. constructor; auto.
+  - pose proof (Permutation_Forall Hp (li_ok s Li)) as Hf. apply Forall_app in Hf. destruct Hf as [_ Hf].
+    eapply Forall_impl; [|exact Hf]. exact Hold.
+  - pose proof (Permutation_NoDup (Permutation_map sr Hp) (li_nd s Li)) as Hn. rewrite map_app in Hn.
+    apply NoDup_app_r in Hn. exact Hn.
+Qed.
+
+Lemma HI_updR_same : forall h r f,
+  (forall q, r_got (f q) = r_got q /\ r_rel (f q) = r_rel q /\ r_obj (f q) = r_obj q) ->
+  HI h -> HI (updR h r f) /\ (forall y, ok_slot h y -> ok_slot (updR h r f) y).
+Proof.
+  intros h r f Hf Hi.
+  assert (Hg : forall x, hgot (updR h r f) x = hgot h x).
+  { intros x. rewrite hgot_updR. destruct (x =? r) eqn:E; [|reflexivity]. apply N.eqb_eq in E. subst x. apply Hf. }
+  assert (Hrel : forall x, r_rel (h_reqs (updR h r f) x) = r_rel (h_reqs h x)).
+  { intros x. cbn. destruct (x =? r) eqn:E; [|reflexivity]. apply N.eqb_eq in E. subst x. apply Hf. }
+  assert (Hro : forall x, r_obj (h_reqs (updR h r f) x) = r_obj (h_reqs h x)).
+  { intros x. cbn. destruct (x =? r) eqn:E; [|reflexivity]. apply N.eqb_eq in E. subst x. apply Hf. }
+  split.
+  - constructor; intros; rewrite ?Hg, ?Hrel, ?Hro in *; try (apply Hi; assumption).
+  - intros y (A & B & C & D & E & F). unfold ok_slot. rewrite Hg, Hrel, Hro. repeat split; auto.
+Qed.
+
+Lemma HI_drain : forall h o, HI h -> HI (updO h o o_drained) /\ (forall y, ok_slot h y -> ok_slot (updO h o o_drained) y).
+Proof.
+  intros h o Hi.
+  assert (Hobj : forall x, h_objs (updO h o o_drained) x = if x =? o then o_drained (h_objs h o) else h_objs h x) by reflexivity.
+  split.
+  - constructor; try apply Hi.
+    + intros x Hx. rewrite Hobj. destruct (x =? o) eqn:E.
+      * apply N.eqb_eq in E. subst x. cbn. intros [X|X]; [contradiction|]. apply (hi_comp h Hi o Hx). auto.
+      * apply (hi_comp h Hi x Hx).
+    + intros x Hx. rewrite Hobj. destruct (x =? o) eqn:E; [cbn; intros X; contradiction | apply (hi_comm h Hi x Hx)].
+    + intros x Hx. rewrite Hobj. destruct (x =? o) eqn:E; [apply N.eqb_eq in E; subst x; cbn|]; apply Hi; exact Hx.
+    + intros x Hx. rewrite Hobj. destruct (x =? o) eqn:E; [apply N.eqb_eq in E; subst x; cbn|]; apply (hi_pool h Hi); exact Hx.
+    + intros r Hr Hrel. rewrite Hobj. destruct (_ =? o) eqn:E; [apply N.eqb_eq in E; cbn; rewrite <- E|]; apply (hi_own h Hi r Hr Hrel).
+    + intros x Hx. rewrite Hobj. destruct (x =? o) eqn:E; [apply N.eqb_eq in E; subst x; cbn|]; apply Hi; exact Hx.
+  - intros y (A & B & C & D & E & F). unfold ok_slot. rewrite Hobj.
+    destruct (so y =? o) eqn:Eo; [apply N.eqb_eq in Eo; cbn; rewrite <- Eo|]; repeat split; auto.
+Qed.
+
+Lemma HI_release : forall h i, HI h -> i < h_nreq h -> r_rel (h_reqs h i) = false ->
+  o_rtr (h_objs h (r_obj (h_reqs h i))) = true ->
+  let h' := set_pool (updR (updO h (r_obj (h_reqs h i)) o_released) i r_set_rel) (r_obj (h_reqs h i) :: h_pool h) in
+  HI h' /\ (forall y, ok_slot h y -> ok_slot h' y).
+Proof.
+  intros h i Hi Hlt Hrel Hrtr. destruct (hi_own h Hi i Hlt Hrel) as [Hown Hob].
+  set (o := r_obj (h_reqs h i)) in *. intros h'.
+  assert (Hobj : forall x, h_objs h' x = if x =? o then o_released (h_objs h o) else h_objs h x) by reflexivity.
+  assert (Hreq : forall r, h_reqs h' r = if r =? i then r_set_rel (h_reqs h i) else h_reqs h r) by reflexivity.
+  assert (Hn1 : h_nobj h' = h_nobj h) by reflexivity.
+  assert (Hn2 : h_nreq h' = h_nreq h) by reflexivity.
+  assert (Hn3 : h_pool h' = o :: h_pool h) by reflexivity.
+  assert (Hg : forall r, hgot h' r = hgot h r).
+  { intros r. unfold hgot. rewrite Hreq. destruct (r =? i) eqn:E; [apply N.eqb_eq in E; subst r|]; reflexivity. }
+  assert (Hown' : forall x, o_owner (h_objs h' x) = o_owner (h_objs h x)).
+  { intros x. rewrite Hobj. destruct (x =? o) eqn:E; [apply N.eqb_eq in E; subst x|]; reflexivity. }
+  clearbody h'.
+  assert (Hnt : nterm (hgot h i) <> 0%nat) by (rewrite <- Hown; apply (hi_comp h Hi o Hob); auto).
+  split.
+  - constructor; rewrite ?Hn1, ?Hn2, ?Hn3.
+    + intros r. rewrite Hg. apply Hi.
+    + intros r e. rewrite Hg. apply Hi.
+    + intros x Hx. rewrite Hown', Hg, Hobj. destruct (x =? o) eqn:E.
+      * apply N.eqb_eq in E. subst x. cbn. intros [X|X]; [|discriminate]. apply (hi_comp h Hi o Hx). auto.
+      * apply (hi_comp h Hi x Hx).
+    + intros x Hx. rewrite Hown', Hg, Hobj. destruct (x =? o) eqn:E; [apply N.eqb_eq in E; subst x; cbn|]; apply (hi_comm h Hi); exact Hx.
+    + intros x Hx. rewrite Hobj. destruct (x =? o) eqn:E; [cbn; discriminate | apply Hi; exact Hx].
+    + intros x [<-|Hx].
+      * rewrite Hown', Hown, Hreq, N.eqb_refl, Hobj, N.eqb_refl. cbn. auto.
+      * destruct (hi_pool h Hi x Hx) as (Q1 & Q2 & Q3). rewrite Hown', Hreq, Hobj.
+        split; [exact Q1|]. split.
+        -- destruct (_ =? i); [reflexivity | exact Q2].
+        -- destruct (x =? o) eqn:E; [reflexivity | exact Q3].
+    + constructor; [|apply Hi]. intros Hin. destruct (hi_pool h Hi o Hin) as (_ & Q2 & _). rewrite Hown in Q2. congruence.
+    + intros r Hr. rewrite Hreq. destruct (r =? i) eqn:E; [cbn; discriminate|]. intros Hf.
+      rewrite Hown'. apply (hi_own h Hi r Hr Hf).
+    + intros x Hx. rewrite Hown'. apply Hi. exact Hx.
+  - intros y (A & B & C & D & E & F).
+    assert (Hne : sr y <> i) by (intros Eq; rewrite Eq in E; contradiction).
+    unfold ok_slot. rewrite Hn1, Hn2, Hown', Hg, Hreq. apply N.eqb_neq in Hne. rewrite Hne. repeat split; auto.
+Qed.
+
+(* ================================================================== *)
+(* every step preserves LI (unless the environment broke an assumption) *)
+Lemma find_key_none_notin : forall key l, find_key key l = None -> ~ In key (map fst l).
+Proof.
+  intros key. induction l as [|kv l IH]; [intros _ []|]. unfold find_key in *. cbn.
+  destruct (fst kv =? key) eqn:E; [discriminate|]. intros Hn [Hk|Hk]; [apply N.eqb_neq in E; contradiction | apply IH; assumption].
+Qed.
+Lemma find_key_in : forall key l sl, find_key key l = Some sl -> In (key, sl) l.
+Proof.
+  intros key. induction l as [|kv l IH]; intros sl; [discriminate|]. unfold find_key in *. cbn.
+  destruct (fst kv =? key) eqn:E.
+  - intros Hs. inversion Hs; subst. left. apply N.eqb_eq in E. destruct kv; cbn in *; subst; reflexivity.
+  - intros Hs. right. apply IH. exact Hs.
+Qed.
+Lemma NoDup_remove_key : forall key l, NoDup (map fst l) -> NoDup (map fst (remove_key key l)).
+Proof. intros. apply NoDup_map_filter. assumption. Qed.
+
+Lemma take_some : forall s cid sid key now sl, LI s -> take s cid sid key now = Some sl ->
+  p_stop (P s) (key mod cps s) = false /\ find_key key (pend (P s)) = Some sl /\
+  filter (fun kv => fst kv =? key) (pend (P s)) = [(key, sl)] /\ In sl (live s).
+Proof.
+  intros s cid sid key now sl Li. unfold take, shard.
+  destruct (p_stop (P s) (key mod cps s)) eqn:Est; [discriminate|].
+  destruct (find_key key (pend (P s))) as [sl'|] eqn:Ef; [|discriminate].
+  destruct (_ && _); [|discriminate]. intros Hs. inversion Hs; subst sl'.
+  repeat split; auto.
+  - apply find_key_some; [apply Li | exact Ef].
+  - unfold live. apply in_or_app. left. unfold live_pend. apply in_map_iff. exists (key, sl). split; [reflexivity|].
+    apply filter_In. split; [apply find_key_in; exact Ef|]. unfold alive. cbn. rewrite Est. reflexivity.
+Qed.
+
+(* removing key (whose shard is live) from the pending map and notifying its slot *)
+Lemma pend_remove_key : forall s key sl,
+  p_stop (P s) (key mod cps s) = false ->
+  filter (fun kv => fst kv =? key) (pend (P s)) = [(key, sl)] ->
+  Permutation (live_pend s) ([sl] ++ map snd (filter (alive s) (remove_key key (pend (P s))))).
+Proof.
+  intros s key sl Est Hf.
+  pose proof (pend_split s (fun kv => fst kv =? key)) as Hp. rewrite Hf in Hp. cbn [map snd] in Hp.
+  apply Hp. intros kv Hk. apply N.eqb_eq in Hk. unfold alive. rewrite Hk, Est. reflexivity.
+Qed.
+
+Lemma ok_of_live : forall s sl, LI s -> In sl (live s) -> ok_slot (H s) sl.
+Proof. intros s sl Li Hin. pose proof (li_ok s Li) as Hok. rewrite Forall_forall in Hok. apply Hok. exact Hin. Qed.
+
+Definition one (sc : obj -> src) (f : obj -> res) (x : slot) : list ((obj -> src) * (obj -> res) * slot) := [(sc, f, x)].
+
+Lemma LI_notify_pend : forall s s' sc r key sl, LI s -> h_err (H s) = 0 ->
+  rc r =? cCommitted = false ->
+  p_stop (P s) (key mod cps s) = false ->
+  filter (fun kv => fst kv =? key) (pend (P s)) = [(key, sl)] ->
+  H s' = notify sc r (H s) sl ->
+  live s' = map snd (filter (alive s) (remove_key key (pend (P s)))) ++ live_reads s ++ olist (x_pend (C s)) ++ olist (x_pend (S s)) ++ olist (lq_pend s) ->
+  NoDup (map fst (pend (P s'))) -> cm_b (P s') = None -> LI s'.
+Proof.
+  intros s s' sc r key sl Li He Hr Est Hf Hh Hl Hk Hc.
+  apply (LI_finish s s' [(fun _ => sc, fun _ => r, sl)] [] Li He); auto.
+  - constructor; [|constructor]. intros o. exact Hr.
+  - cbn [map snd app]. rewrite Hl. unfold live. apply (perm_head _ (live_pend s) _ _ [sl] []).
+    apply (pend_remove_key s key sl Est Hf).
+Qed.
+
+Lemma new_obj_eq : forall ncf rid key dl h,
+  new_obj ncf rid key dl h = get_obj (N.of_nat (length (h_pool h))) ncf rid key 0 0 dl h.
+Proof.
+  intros. unfold new_obj, get_obj. rewrite Nat2N.id.
+  assert (E : nth_error (h_pool h) (length (h_pool h)) = None) by (apply nth_error_None; lia).
+  rewrite E. reflexivity.
+Qed.
+
+Lemma batch_slots_app : forall a b, batch_slots (a ++ b) = batch_slots a ++ batch_slots b.
+Proof. intros. unfold batch_slots. apply flat_map_app. Qed.
+Lemma batch_split : forall (p : (N * N) * (N * list slot) -> bool) bs,
+  Permutation (batch_slots bs) (batch_slots (filter p bs) ++ batch_slots (filter (fun b => negb (p b)) bs)).
+Proof.
+  intros p bs. rewrite <- batch_slots_app. unfold batch_slots. apply Permutation_flat_map. apply perm_filter_split.
+Qed.
+Lemma batch_slots_map_filter : forall (q : slot -> bool) bs,
+  batch_slots (map (fun b : (N * N) * (N * list slot) => (fst b, (fst (snd b), filter q (snd (snd b))))) bs)
+  = filter q (batch_slots bs).
+Proof.
+  intros q. induction bs as [|b bs IH]; [reflexivity|]. unfold batch_slots in *. cbn. rewrite filter_app, IH. reflexivity.
+Qed.
+Lemma batch_slots_filter_empty : forall (keep : (N * N) * (N * list slot) -> bool) bs,
+  (forall b, keep b = false -> snd (snd b) = []) -> batch_slots (filter keep bs) = batch_slots bs.
+Proof.
+  intros keep bs Hk. induction bs as [|b bs IH]; [reflexivity|]. unfold batch_slots in *. cbn.
+  destruct (keep b) eqn:E; cbn; [rewrite IH; reflexivity | rewrite (Hk b E), IH; reflexivity].
+Qed.
+Lemma batch_slots_map_idx : forall (g : (N * N) * (N * list slot) -> (N * N) * (N * list slot)) bs,
+  (forall b, snd (snd (g b)) = snd (snd b)) -> batch_slots (map g bs) = batch_slots bs.
+Proof.
+  intros g bs Hg. induction bs as [|b bs IH]; [reflexivity|]. unfold batch_slots in *. cbn. rewrite Hg, IH. reflexivity.
+Qed.
+
+(* the three one-slot tables *)
+Lemma LI_x_notify : forall s s' sc f sl (a b : list slot), LI s -> h_err (H s) = 0 -> terminal f ->
+  live s = a ++ [sl] ++ b -> live s' = a ++ b ->
+  H s' = notifyf sc f (H s) sl ->
+  NoDup (map fst (pend (P s'))) -> cm_b (P s') = None -> LI s'.
+Proof.
+  intros s s' sc f sl a b Li He Hf Hl Hl' Hh Hk Hc.
+  apply (LI_finish s s' [(sc, f, sl)] [] Li He); auto.
+  cbn [map snd app]. rewrite Hl, Hl'. cbn [app]. apply Permutation_sym. apply Permutation_middle.
+Qed.
+
+Ltac same_live Li := apply (LI_same_heap _ _ Li); [reflexivity | apply Permutation_refl | apply Li | apply Li].
+
+Lemma x_gc_LI_C : forall s, LI s -> h_err (H s) = 0 ->
+  LI (let '(h1, x) := x_gc (H s) (C s) in setHC s h1 x).
+Proof.
+  intros s Li He. unfold x_gc. destruct (x_pend (C s)) as [sl|] eqn:Ex.
+  - destruct (sub64 _ _ <? gc_tick); [destruct s, C; cbn in *; subst; exact Li|].
+    destruct (o_dl _ <? _).
+    + eapply (LI_x_notify s _ (fun o => SGc (h_clock (H s)) (o_dl o)) (fun _ => mkRes cTimeout 0 0) sl (live_pend s ++ live_reads s) (olist (x_pend (S s)) ++ olist (lq_pend s)) Li He).
+      * apply terminal_const. reflexivity.
+      * unfold live. rewrite Ex. cbn [olist]. rewrite <- !app_assoc. reflexivity.
+      * unfold live. cbn. rewrite <- !app_assoc. reflexivity.
+      * reflexivity.
+      * apply Li.
+      * apply Li.
+    + apply (LI_same_heap _ _ Li); [reflexivity | | apply Li | apply Li].
+      unfold live. cbn. rewrite Ex. apply Permutation_refl.
+  - destruct s, C; cbn in *; subst; exact Li.
+Qed.
+Lemma x_gc_LI_S : forall s, LI s -> h_err (H s) = 0 ->
+  LI (let '(h1, x) := x_gc (H s) (S s) in setHS s h1 x).
+Proof.
+  intros s Li He. unfold x_gc. destruct (x_pend (S s)) as [sl|] eqn:Ex.
+  - destruct (sub64 _ _ <? gc_tick); [destruct s, S; cbn in *; subst; exact Li|].
+    destruct (o_dl _ <? _).
+    + eapply (LI_x_notify s _ (fun o => SGc (h_clock (H s)) (o_dl o)) (fun _ => mkRes cTimeout 0 0) sl (live_pend s ++ live_reads s ++ olist (x_pend (C s))) (olist (lq_pend s)) Li He).
+      * apply terminal_const. reflexivity.
+      * unfold live. rewrite Ex. cbn [olist]. rewrite <- !app_assoc. reflexivity.
+      * unfold live. cbn. rewrite <- !app_assoc. reflexivity.
+      * reflexivity.
+      * apply Li.
+      * apply Li.
+    + apply (LI_same_heap _ _ Li); [reflexivity | | apply Li | apply Li].
+      unfold live. cbn. rewrite Ex. apply Permutation_refl.
+  - destruct s, S; cbn in *; subst; exact Li.
+Qed.
+
+Lemma broken_notifyf : forall sc f h x, h_broken (notifyf sc f h x) = h_broken h.
+Proof.
+  intros. unfold notifyf. destruct (negb _); [reflexivity|]. destruct (o_comp _); reflexivity.
+Qed.
+Lemma broken_notifyf_all : forall sc f xs h, h_broken (notifyf_all sc f h xs) = h_broken h.
+Proof.
+  intros sc f xs. induction xs as [|x xs IH]; intros h; [reflexivity|].
+  change (notifyf_all sc f h (x :: xs)) with (notifyf_all sc f (notifyf sc f h x) xs). rewrite IH. apply broken_notifyf.
+Qed.
+Lemma filter_andb : forall A (p q : A -> bool) l, filter (fun x => p x && q x) l = filter p (filter q l).
+Proof.
+  intros A p q. induction l as [|a l IH]; [reflexivity|]. cbn. destruct (q a) eqn:Eq, (p a) eqn:Ep; cbn; rewrite ?Ep, IH; reflexivity.
+Qed.
+
+Lemma closeP_LI : forall s k0, LI s -> h_err (H s) = 0 ->
+  h_broken (H (step0 s (CloseP k0))) = false -> LI (step0 s (CloseP k0)).
+Proof.
+  intros s k0 Li He. cbn [step0]. set (k := k0 mod cps s).
+  set (inK := fun kv : N * slot => fst kv mod cps s =? k).
+  unfold notify_all, notify.
+  fold (notifyf_all (fun _ => SClose) (fun _ => terminated)
+          (if p_stop (P s) k then set_broken (H s) else H s) (map snd (filter inK (pend (P s))))).
+  destruct (p_stop (P s) k) eqn:Est.
+  - cbn [H setHP]. rewrite broken_notifyf_all. cbn. discriminate.
+  - intros _.
+    apply (LI_finish s _ (map (fun x => (fun _ : obj => SClose, fun _ : obj => terminated, x)) (map snd (filter inK (pend (P s))))) [] Li He).
+    + apply Forall_triples. apply terminal_const. reflexivity.
+    + rewrite map_snd_triples. unfold live. apply (perm_head _ (live_pend s) _ _ _ []). cbn [app].
+      etransitivity; [apply (pend_split s inK)|].
+      * intros kv Hk. unfold inK in Hk. apply N.eqb_eq in Hk. unfold alive. rewrite Hk, Est. reflexivity.
+      * apply Permutation_app_head. unfold live_pend. cbn [P setHP p_set_stop pend].
+        rewrite <- (filter_andb _ (alive s) (fun kv => negb (inK kv))).
+        erewrite filter_ext; [apply Permutation_refl|].
+        intros kv. unfold alive, inK, fupd. cbn. destruct (fst kv mod cps s =? k) eqn:E; cbn.
+        -- apply N.eqb_eq in E. rewrite E, Est. reflexivity.
+        -- rewrite andb_true_r. reflexivity.
+    + cbn [H setHP]. apply notifyf_all_nseq.
+    + apply Li.
+    + apply Li.
+Qed.
+
+Lemma closeR_LI : forall s, LI s -> h_err (H s) = 0 ->
+  h_broken (H (step0 s CloseR)) = false -> LI (step0 s CloseR).
+Proof.
+  intros s Li He. cbn [step0]. unfold notify_all, notify.
+  fold (notifyf_all (fun _ => SClose) (fun _ => terminated) (if rd_stop (R s) then set_broken (H s) else H s) (rq (R s))).
+  match goal with |- context[fold_left ?g (batch_slots ?b) ?h0] =>
+    change (fold_left g (batch_slots b) h0) with (notifyf_all (fun _ => SClose) (fun _ => terminated) h0 (batch_slots b)) end.
+  destruct (rd_stop (R s)) eqn:Est.
+  - cbn [H setHR]. rewrite !broken_notifyf_all. cbn. discriminate.
+  - intros _. set (tr := fun x : slot => (fun _ : obj => SClose, fun _ : obj => terminated, x)).
+    apply (LI_finish s _ (map tr (rq (R s)) ++ map tr (batch_slots (batches (R s)))) [] Li He).
+    + apply Forall_app. split; apply Forall_triples; apply terminal_const; reflexivity.
+    + rewrite map_app. unfold tr. rewrite !map_snd_triples. unfold live, live_reads.
+      cbn [R setHR r_closed rq taken batches rd_stop P C S lq_pend]. rewrite Est.
+      change (live_pend (setHR s _ _)) with (live_pend s).
+      apply (perm_mid _ (live_pend s) _ _ _ _ []). cbn [app]. rewrite app_nil_r.
+      rewrite <- app_assoc. apply Permutation_app_head. apply Permutation_app_comm.
+    + cbn [H setHR]. rewrite nseq_app. rewrite !notifyf_all_nseq. reflexivity.
+    + apply Li.
+    + apply Li.
+Qed.
+
+Lemma fold_batches_nseq : forall (scb : (N * N) * (N * list slot) -> obj -> src) (fr : obj -> res) bsl h,
+  fold_left (fun h b => notifyf_all (scb b) fr h (snd (snd b))) bsl h
+  = nseq (flat_map (fun b => map (fun x => (scb b, fr, x)) (snd (snd b))) bsl) h.
+Proof.
+  intros scb fr. induction bsl as [|b bsl IH]; intros h; [reflexivity|]. cbn [fold_left flat_map].
+  rewrite nseq_app, <- notifyf_all_nseq. apply IH.
+Qed.
+Lemma map_snd_flat_triples : forall (scb : (N * N) * (N * list slot) -> obj -> src) (fr : obj -> res) bsl,
+  map snd (flat_map (fun b => map (fun x => (scb b, fr, x)) (snd (snd b))) bsl) = batch_slots bsl.
+Proof.
+  intros scb fr. induction bsl as [|b bsl IH]; [reflexivity|]. unfold batch_slots in *. cbn [flat_map].
+  rewrite map_app, IH, map_map. cbn. rewrite map_id. reflexivity.
+Qed.
+Lemma Forall_flat_triples : forall (scb : (N * N) * (N * list slot) -> obj -> src) (fr : obj -> res) bsl, terminal fr ->
+  Forall (fun t : (obj -> src) * (obj -> res) * slot => terminal (snd (fst t)))
+         (flat_map (fun b => map (fun x => (scb b, fr, x)) (snd (snd b))) bsl).
+Proof.
+  intros scb fr bsl Hf. apply Forall_forall. intros t Ht. apply in_flat_map in Ht. destruct Ht as (b & _ & Ht).
+  apply in_map_iff in Ht. destruct Ht as (x & <- & _). exact Hf.
+Qed.
+
+Lemma readsApplied_LI : forall s a, LI s -> h_err (H s) = 0 -> LI (reads_applied s a).
+Proof.
+  intros s a Li He. unfold reads_applied.
+  destruct (rd_stop (R s)) eqn:Est; [exact Li|]. cbn [orb].
+  destruct (batches (R s)) as [|b0 bs0] eqn:Eb; [exact Li|]. rewrite <- Eb. clear Eb b0 bs0.
+  set (now := h_clock (H s)).
+  set (ready := fun b : (N * N) * (N * list slot) => (0 <? fst (snd b)) && (fst (snd b) <=? a)).
+  set (scb := fun (b : (N * N) * (N * list slot)) (o : obj) => SReadApplied a (fst (snd b)) now (o_dl o)).
+  set (fr := fun o : obj => if now <? o_dl o then mkRes cCompleted 0 0 else mkRes cTimeout 0 0).
+  assert (Hfr : terminal fr) by (intros o; unfold fr; destruct (now <? o_dl o); reflexivity).
+  change (fold_left _ (filter ready (batches (R s))) (H s))
+    with (fold_left (fun h b => notifyf_all (scb b) fr h (snd (snd b))) (filter ready (batches (R s))) (H s)).
+  rewrite fold_batches_nseq.
+  set (L1 := flat_map (fun b => map (fun x => (scb b, fr, x)) (snd (snd b))) (filter ready (batches (R s)))).
+  set (bs1 := filter (fun b => negb (ready b)) (batches (R s))).
+  assert (Hp1 : Permutation (batch_slots (batches (R s))) (map snd L1 ++ batch_slots bs1)).
+  { unfold L1. rewrite map_snd_flat_triples. apply (batch_split ready). }
+  destruct (sub64 now (rd_lastgc (R s)) <? gc_tick).
+  - apply (LI_finish s _ L1 [] Li He).
+    + apply Forall_flat_triples. exact Hfr.
+    + unfold live, live_reads. cbn [R setHR r_set_b rq taken batches rd_stop P C S lq_pend]. rewrite Est.
+      change (live_pend (setHR s _ _)) with (live_pend s).
+      apply (perm_mid _ (live_pend s) _ _ _ _ []). apply perm_tail3. exact Hp1.
+    + reflexivity.
+    + apply Li.
+    + apply Li.
+  - unfold reads_gc. cbn zeta.
+    set (expired := fun sl : slot => o_dl (h_objs (nseq L1 (H s)) (so sl)) <? now).
+    set (gsc := fun o : obj => SGc now (o_dl o)). set (gf := fun _ : obj => mkRes cTimeout 0 0).
+    set (keepb := fun b : (N * N) * (N * list slot) =>
+                    negb ((snd (fst b) <? now) && match snd (snd b) with [] => true | _ => false end)).
+    apply (LI_finish s _ (L1 ++ map (fun x => (gsc, gf, x)) (filter expired (batch_slots bs1))) [] Li He).
+    + apply Forall_app. split; [apply Forall_flat_triples; exact Hfr | apply Forall_triples; apply terminal_const; reflexivity].
+    + rewrite map_app, map_snd_triples.
+      unfold live, live_reads. cbn [R setHR r_set_bg rq taken batches rd_stop P C S lq_pend]. rewrite Est.
+      change (live_pend (setHR s _ _)) with (live_pend s).
+      apply (perm_mid _ (live_pend s) _ _ _ _ []). apply perm_tail3.
+      rewrite (batch_slots_filter_empty keepb).
+      * rewrite (batch_slots_map_filter (fun sl => negb (expired sl))).
+        etransitivity; [exact Hp1|]. rewrite <- app_assoc. apply Permutation_app_head. apply perm_filter_split.
+      * intros b Hk. unfold keepb in Hk. apply negb_false_iff in Hk. apply andb_true_iff in Hk. destruct Hk as [_ Hk].
+        destruct (snd (snd b)); [reflexivity | discriminate].
+    + cbn [H setHR]. rewrite nseq_app, <- notifyf_all_nseq. reflexivity.
+    + apply Li.
+    + apply Li.
+Qed.
+
+Lemma x_match_some : forall h x key sl, x_match h x key = Some sl -> x_pend x = Some sl.
+Proof. intros h x key sl. unfold x_match. destruct (x_pend x); [|discriminate]. destruct (_ =? key); [auto|discriminate]. Qed.
+
+Lemma alive_setHP : forall s h p kv, p_stop p = p_stop (P s) -> alive (setHP s h p) kv = alive s kv.
+Proof. intros s h p kv E. unfold alive. cbn. rewrite E. reflexivity. Qed.
+
+Lemma step0_LI : forall s o, LI s -> h_err (H s) = 0 ->
+  h_err (H (step0 s o)) = 0 -> h_broken (H (step0 s o)) = false -> LI (step0 s o).
+Proof.
+  intros s o Li He. destruct o; cbn [step0].
+  - (* ProposeA *)
+    destruct (to =? 0); [intros; exact Li|].
+    pose proof (alloc_ok pick (cnc s) key cid sid (add64 (h_clock (H s)) to) (H s)) as Ha.
+    destruct (get_obj pick (cnc s) (h_nreq (H s)) key cid sid (add64 (h_clock (H s)) to) (H s)) as [h1 ob] eqn:Eg.
+    cbn [fst snd] in Ha.
+    specialize (Ha (mkReq 0 ob key cid sid (add64 (h_clock (H s)) to) (cnc s) 0 false [] [] []) (li_h s Li) eq_refl eq_refl eq_refl).
+    destruct Ha as (Hi' & Hnew & Hold & _).
+    destruct (find_key key (pend (P s))) eqn:Ef; [cbn; intros _ Hb; discriminate|].
+    intros _ _. rewrite (find_key_none _ _ Ef).
+    set (new := mkSlot ob (h_nreq (H s))).
+    apply (LI_heap s _ (if alive s (key, new) then [new] else []) Li); cbn [H setHP P p_set_pend pend cm_b]; auto.
+    + destruct (alive s (key, new)); [constructor; [exact Hnew | constructor] | constructor].
+    + destruct (alive s (key, new)); cbn; [constructor; [intros [] | constructor] | constructor].
+    + intros y Hy. destruct (alive s (key, new)); [destruct Hy as [<-|[]]; cbn; lia | destruct Hy].
+    + unfold live, live_pend. cbn [P setHP p_set_pend pend R C S lq_pend filter].
+      change (alive (setHP s _ _) (key, new)) with (alive s (key, new)).
+      destruct (alive s (key, new)); cbn [map app]; apply Permutation_refl.
+    + cbn. constructor; [apply find_key_none_notin; exact Ef | apply Li].
+    + apply Li.
+  - (* ProposeB *)
+    destruct (_ && _); [|intros; exact Li].
+    destruct (proposeB_outcome s =? 0); intros _ _.
+    + destruct (HI_updR_same (H s) i (fun q => r_set_status q 1) ltac:(intros; cbn; auto) (li_h s Li)) as [Hi' Hold].
+      apply (LI_weaken s _ [] Li); [exact Hi' | exact Hold | apply Permutation_refl | apply Li | apply Li].
+    + destruct (HI_updR_same (H s) i (fun q => r_set_status q 2) ltac:(intros; cbn; auto) (li_h s Li)) as [Hi' Hold].
+      set (key := r_key (h_reqs (H s) i)).
+      apply (LI_weaken s _ (map snd (filter (alive s) (filter (fun kv => fst kv =? key) (pend (P s))))) Li); [exact Hi' | exact Hold | | |].
+      * unfold live. apply (perm_head _ (live_pend s) _ _ [] _).
+        change (Permutation (map snd (filter (alive s) (pend (P s))))
+                  ([] ++ map snd (filter (alive s) (filter (fun kv => fst kv =? key) (pend (P s)))) ++
+                   map snd (filter (alive s) (remove_key key (pend (P s)))))).
+        cbn [app]. rewrite <- map_app. apply Permutation_map. unfold remove_key.
+        rewrite (filter_filter_comm _ (alive s)). rewrite (filter_filter_comm _ (alive s) (fun kv => negb (fst kv =? key))).
+        apply (perm_filter_split _ (fun kv => fst kv =? key)).
+      * cbn. apply NoDup_remove_key. apply Li.
+      * apply Li.
+  - (* Read *)
+    destruct (to =? 0); [intros; exact Li|].
+    pose proof (alloc_ok pick false 0 0 0 (add64 (h_clock (H s)) to) (H s)) as Ha.
+    destruct (get_obj pick false (h_nreq (H s)) 0 0 0 (add64 (h_clock (H s)) to) (H s)) as [h1 ob] eqn:Eg.
+    cbn [fst snd] in Ha. intros _ _.
+    destruct (read_outcome s to =? 0).
+    + specialize (Ha (mkReq 1 ob 0 0 0 (add64 (h_clock (H s)) to) false 1 false [] [] []) (li_h s Li) eq_refl eq_refl eq_refl).
+      destruct Ha as (Hi' & Hnew & Hold & _).
+      apply (LI_heap s _ [mkSlot ob (h_nreq (H s))] Li); cbn [H setHR]; auto.
+      * cbn. constructor; [intros [] | constructor].
+      * intros y [<-|[]]. cbn. lia.
+      * unfold live, live_reads. cbn [R setHR r_set_rq rq taken batches rd_stop P C S lq_pend].
+        change (live_pend (setHR s _ _)) with (live_pend s).
+        rewrite <- !app_assoc. cbn [app]. apply Permutation_sym.
+        etransitivity; [|apply Permutation_app_head; apply Permutation_middle]. apply Permutation_middle.
+      * apply Li.
+      * apply Li.
+    + specialize (Ha (mkReq 1 ob 0 0 0 (add64 (h_clock (H s)) to) false 2 false [] [] []) (li_h s Li) eq_refl eq_refl eq_refl).
+      destruct Ha as (Hi' & Hnew & Hold & _).
+      apply (LI_heap s _ [] Li); cbn [H setH]; auto; try constructor; try apply Li; try (intros y []).
+  - (* ReqCC *)
+    unfold x_request. destruct (x_outcome (C s) to =? 0) eqn:Eo; [|intros; destruct s; exact Li].
+    rewrite new_obj_eq.
+    pose proof (alloc_ok (N.of_nat (length (h_pool (H s)))) (cnc s) key 0 0 (add64 (h_clock (H s)) to) (H s)) as Ha.
+    destruct (get_obj _ (cnc s) (h_nreq (H s)) key 0 0 (add64 (h_clock (H s)) to) (H s)) as [h1 ob] eqn:Eg.
+    cbn [fst snd] in Ha. intros _ _.
+    specialize (Ha (mkReq 2 ob key 0 0 (add64 (h_clock (H s)) to) (cnc s) 1 false [] [] []) (li_h s Li) eq_refl eq_refl eq_refl).
+    destruct Ha as (Hi' & Hnew & Hold & _).
+    assert (Ex : x_pend (C s) = None).
+    { unfold x_outcome in Eo. destruct (to =? 0); [discriminate|]. destruct (x_pend (C s)); [discriminate | reflexivity]. }
+    apply (LI_heap s _ [mkSlot ob (h_nreq (H s))] Li); cbn [H setHC]; auto.
+    + cbn. constructor; [intros [] | constructor].
+    + intros y [<-|[]]. cbn. lia.
+    + unfold live. cbn [C setHC x_pend olist S lq_pend]. rewrite Ex. cbn [olist app].
+      change (live_pend (setHC s _ _)) with (live_pend s). change (live_reads (setHC s _ _)) with (live_reads s).
+      apply Permutation_sym. rewrite !app_assoc. apply Permutation_cons_app. rewrite <- !app_assoc. apply Permutation_refl.
+    + apply Li.
+    + apply Li.
+  - (* ReqSS *)
+    unfold x_request. destruct (x_outcome (S s) to =? 0) eqn:Eo; [|intros; destruct s; exact Li].
+    rewrite new_obj_eq.
+    pose proof (alloc_ok (N.of_nat (length (h_pool (H s)))) false key 0 0 (add64 (h_clock (H s)) to) (H s)) as Ha.
+    destruct (get_obj _ false (h_nreq (H s)) key 0 0 (add64 (h_clock (H s)) to) (H s)) as [h1 ob] eqn:Eg.
+    cbn [fst snd] in Ha. intros _ _.
+    specialize (Ha (mkReq 3 ob key 0 0 (add64 (h_clock (H s)) to) false 1 false [] [] []) (li_h s Li) eq_refl eq_refl eq_refl).
+    destruct Ha as (Hi' & Hnew & Hold & _).
+    assert (Ex : x_pend (S s) = None).
+    { unfold x_outcome in Eo. destruct (to =? 0); [discriminate|]. destruct (x_pend (S s)); [discriminate | reflexivity]. }
+    apply (LI_heap s _ [mkSlot ob (h_nreq (H s))] Li); cbn [H setHS]; auto.
+    + cbn. constructor; [intros [] | constructor].
+    + intros y [<-|[]]. cbn. lia.
+    + unfold live. cbn [C S setHS x_pend olist lq_pend]. rewrite Ex. cbn [olist app].
+      change (live_pend (setHS s _ _)) with (live_pend s). change (live_reads (setHS s _ _)) with (live_reads s).
+      apply Permutation_sym. rewrite !app_assoc. apply Permutation_cons_app. rewrite <- !app_assoc. apply Permutation_refl.
+    + apply Li.
+    + apply Li.
+  - (* ReqLQ *)
+    destruct (lq_outcome s =? 0) eqn:Eo; [|intros; exact Li].
+    rewrite new_obj_eq.
+    pose proof (alloc_ok (N.of_nat (length (h_pool (H s)))) false 0 0 0 0 (H s)) as Ha.
+    destruct (get_obj _ false (h_nreq (H s)) 0 0 0 0 (H s)) as [h1 ob] eqn:Eg.
+    cbn [fst snd] in Ha. intros _ _.
+    specialize (Ha (mkReq 4 ob 0 0 0 0 false 1 false [] [] []) (li_h s Li) eq_refl eq_refl eq_refl).
+    destruct Ha as (Hi' & Hnew & Hold & _).
+    assert (Ex : lq_pend s = None).
+    { unfold lq_outcome in Eo. destruct (_ && _); [discriminate|]. destruct (lq_pend s); [discriminate | reflexivity]. }
+    apply (LI_heap s _ [mkSlot ob (h_nreq (H s))] Li); cbn [H setHL]; auto.
+    + cbn. constructor; [intros [] | constructor].
+    + intros y [<-|[]]. cbn. lia.
+    + unfold live. cbn [C S setHL lq_pend olist]. rewrite Ex. cbn [olist app].
+      change (live_pend (setHL s _ _ _)) with (live_pend s). change (live_reads (setHL s _ _ _)) with (live_reads s).
+      rewrite !app_nil_r. apply Permutation_sym. rewrite !app_assoc. apply Permutation_cons_append.
+    + apply Li.
+    + apply Li.
+  - (* Drain *)
+    destruct (_ && _); [|intros; exact Li]. intros _ _. destruct (_ =? i).
+    + destruct (HI_drain (H s) (r_obj (h_reqs (H s) i)) (li_h s Li)) as [Hi' Hold].
+      apply (LI_weaken s _ [] Li); [exact Hi' | exact Hold | apply Permutation_refl | apply Li | apply Li].
+    + destruct (HI_updR_same (H s) i (fun q => r_set_left q [] []) ltac:(intros; cbn; auto) (li_h s Li)) as [Hi' Hold].
+      apply (LI_weaken s _ [] Li); [exact Hi' | exact Hold | apply Permutation_refl | apply Li | apply Li].
+  - (* Release *)
+    destruct (_ && _) eqn:Ec; [|intros; exact Li]. intros _ _.
+    apply andb_true_iff in Ec. destruct Ec as [Ec Ertr]. apply andb_true_iff in Ec. destruct Ec as [Ec Erel].
+    apply andb_true_iff in Ec. destruct Ec as [Ec _]. apply andb_true_iff in Ec. destruct Ec as [Elt _].
+    apply N.ltb_lt in Elt. apply negb_true_iff in Erel.
+    destruct (HI_release (H s) i (li_h s Li) Elt Erel Ertr) as [Hi' Hold].
+    apply (LI_weaken s _ [] Li); [exact Hi' | exact Hold | apply Permutation_refl | apply Li | apply Li].
+  - (* TakeProps *) intros _ _. same_live Li.
+  - (* TakeReads *)
+    intros _ _. destruct (taken (R s)) eqn:Et; [|exact Li].
+    apply (LI_same_heap _ _ Li); [reflexivity | | apply Li | apply Li].
+    unfold live, live_reads. cbn. rewrite Et. cbn. apply Permutation_refl.
+  - (* AddReads *)
+    destruct (taken (R s)) as [|t0 tk] eqn:Et; [intros; exact Li|].
+    destruct (rd_stop (R s)) eqn:Est.
+    + cbn [read_add_terminates_when_stopped]. intros _ _.
+      unfold notify_all, notify. fold (notifyf_all (fun _ => SClose) (fun _ => terminated) (H s) (t0 :: tk)).
+      apply (LI_finish s _ (map (fun x => (fun _ : obj => SClose, fun _ : obj => terminated, x)) (t0 :: tk)) [] Li He).
+      * apply Forall_triples. apply terminal_const. reflexivity.
+      * rewrite map_snd_triples. unfold live, live_reads. cbn [R setHR r_set_tb rq taken batches rd_stop P C S lq_pend app].
+        rewrite Et, Est. change (live_pend (setHR s _ _)) with (live_pend s).
+        apply (perm_mid _ (live_pend s) _ _ _ (t0 :: tk) []). cbn [app]. rewrite !app_nil_r.
+        apply (Permutation_app_comm (rq (R s)) (t0 :: tk)).
+      * cbn [H setHR]. apply notifyf_all_nseq.
+      * apply Li.
+      * apply Li.
+    + destruct (existsb _ _); [cbn; intros X; discriminate|]. intros _ _.
+      apply (LI_same_heap _ _ Li); [reflexivity | | apply Li | apply Li].
+      unfold live, live_reads. cbn. rewrite Et, Est. cbn. unfold batch_slots. cbn. rewrite <- !app_assoc.
+      apply Permutation_refl.
+  - (* AddReady *)
+    intros _ _. apply (LI_same_heap _ _ Li); [reflexivity | | apply Li | apply Li].
+    unfold live, live_reads. cbn [R setHR r_set_b rq taken batches rd_stop P C S lq_pend].
+    change (live_pend (setHR s _ _)) with (live_pend s).
+    rewrite batch_slots_map_idx; [apply Permutation_refl|]. intros b. destruct (ctx_eqb _ _); reflexivity.
+  - (* ReadsApplied *) intros _ _. apply readsApplied_LI; assumption.
+  - (* ReadsDropped *)
+    destruct (rd_stop (R s)) eqn:Est; [intros; exact Li|]. intros _ _.
+    set (hit := fun b : (N * N) * (N * list slot) => ctx_eqb (fst b) (lo, hi)).
+    unfold notify_all, notify.
+    fold (notifyf_all (fun _ => SDrop) (fun _ => mkRes cDropped 0 0) (H s) (batch_slots (filter hit (batches (R s))))).
+    apply (LI_finish s _ (map (fun x => (fun _ : obj => SDrop, fun _ : obj => mkRes cDropped 0 0, x)) (batch_slots (filter hit (batches (R s))))) [] Li He).
+    + apply Forall_triples. apply terminal_const. reflexivity.
+    + rewrite map_snd_triples. unfold live, live_reads. cbn [R setHR r_set_b rq taken batches rd_stop P C S lq_pend app].
+      rewrite Est. change (live_pend (setHR s _ _)) with (live_pend s).
+      apply (perm_mid _ (live_pend s) _ _ _ _ []). apply perm_tail3. apply (batch_split hit).
+    + cbn [H setHR]. apply notifyf_all_nseq.
+    + apply Li.
+    + apply Li.
+  - (* Tick *)
+    intros _ _. apply (LI_weaken s _ [] Li); [| | apply Permutation_refl | apply Li | apply Li].
+    + apply (HI_ext (H s)); try reflexivity. apply Li.
+    + intros y Hy. apply (ok_slot_ext (H s)); try reflexivity. exact Hy.
+  - (* GcP *) intros _ _. apply gc_at_LI; assumption.
+  - (* GcC *) intros _ _. apply x_gc_LI_C; assumption.
+  - (* GcS *) intros _ _. apply x_gc_LI_S; assumption.
+  - (* DropP *)
+    destruct (take s cid sid key (h_clock (H s))) as [sl|] eqn:Et; [|intros; exact Li]. intros _ _.
+    destruct (take_some s _ _ _ _ _ Li Et) as (Est & Ef & Hf & Hin).
+    apply (LI_notify_pend s _ SDrop (mkRes cDropped 0 0) key sl Li He); auto.
+    + cbn. apply NoDup_remove_key. apply Li.
+    + apply Li.
+  - (* DropC *)
+    destruct (x_match (H s) (C s) key) as [sl|] eqn:Em; [|intros; exact Li]. intros _ _.
+    apply x_match_some in Em.
+    apply (LI_x_notify s _ (fun _ => SDrop) (fun _ => mkRes cDropped 0 0) sl (live_pend s ++ live_reads s) (olist (x_pend (S s)) ++ olist (lq_pend s)) Li He).
+    + apply terminal_const. reflexivity.
+    + unfold live. rewrite Em. cbn [olist]. rewrite <- !app_assoc. reflexivity.
+    + unfold live. cbn. rewrite <- !app_assoc. reflexivity.
+    + reflexivity.
+    + apply Li.
+    + apply Li.
+  - (* TakeCC *) intros _ _. same_live Li.
+  - (* TakeSS *) intros _ _. same_live Li.
+  - (* LQReturned *)
+    destruct (lq_pend s) as [sl|] eqn:El.
+    + intros _ _.
+      apply (LI_x_notify s _ (fun _ => SOther) (fun _ => mkRes (if oor then cOutOfRange else cCompleted) a b) sl
+               (live_pend s ++ live_reads s ++ olist (x_pend (C s)) ++ olist (x_pend (S s))) [] Li He).
+      * intros o. cbn. destruct oor; reflexivity.
+      * unfold live. rewrite El. cbn [olist]. rewrite <- !app_assoc. reflexivity.
+      * unfold live. cbn. rewrite <- !app_assoc. reflexivity.
+      * reflexivity.
+      * apply Li.
+      * apply Li.
+    + destruct (_ && _); [intros; exact Li | cbn; intros X; discriminate].
+  - (* AppliedTake *)
+    destruct (take s cid sid key (h_clock (H s))) as [sl|] eqn:Et; intros _ _.
+    + destruct (take_some s _ _ _ _ _ Li Et) as (Est & Ef & Hf & Hin).
+      apply (LI_notify_pend s _ (SApplied cid sid key v rej) (mkRes (if rej then cRejected else cCompleted) v 0) key sl Li He); auto.
+      * cbn. destruct rej; reflexivity.
+      * cbn. apply NoDup_remove_key. apply Li.
+      * apply Li.
+    + same_live Li.
+  - (* AppliedGc *)
+    destruct (ap_now (P s)) as [[k now]|]; [|intros; exact Li]. intros _ _.
+    assert (Li1 : LI (setHP s (H s) (p_set_ap (P s) None))) by (same_live Li).
+    destruct (now =? _); [exact Li1|].
+    destruct (gc_at_LI _ k now Li1 He) as [Li2 _].
+    apply (LI_same_heap _ _ Li2); [reflexivity | apply Permutation_refl | apply Li2 | apply Li2].
+  - (* CCApply *)
+    destruct (x_match (H s) (C s) key) as [sl|] eqn:Em; [|intros; exact Li]. intros _ _.
+    apply x_match_some in Em.
+    apply (LI_x_notify s _ (fun _ => SOther) (fun _ => mkRes (if rej then cRejected else cCompleted) 0 0) sl (live_pend s ++ live_reads s) (olist (x_pend (S s)) ++ olist (lq_pend s)) Li He).
+    + intros o. cbn. destruct rej; reflexivity.
+    + unfold live. rewrite Em. cbn [olist]. rewrite <- !app_assoc. reflexivity.
+    + unfold live. cbn. rewrite <- !app_assoc. reflexivity.
+    + reflexivity.
+    + apply Li.
+    + apply Li.
+  - (* SSApply *)
+    destruct (ign && abo); [cbn; intros X; discriminate|].
+    destruct (x_match (H s) (S s) key) as [sl|] eqn:Em; [|intros; exact Li]. intros _ _.
+    apply x_match_some in Em.
+    apply (LI_x_notify s _ (fun _ => SOther)
+             (fun _ => if ign then mkRes cRejected 0 0 else if abo then mkRes cAborted 0 0 else mkRes cCompleted idx 0) sl
+             (live_pend s ++ live_reads s ++ olist (x_pend (C s))) (olist (lq_pend s)) Li He).
+    + intros o. destruct ign; [reflexivity|]. destruct abo; reflexivity.
+    + unfold live. rewrite Em. cbn [olist]. rewrite <- !app_assoc. reflexivity.
+    + unfold live. cbn. rewrite <- !app_assoc. reflexivity.
+    + reflexivity.
+    + apply Li.
+    + apply Li.
+  - (* CommitP *)
+    destruct (take s cid sid key (h_clock (H s))) as [sl|] eqn:Et; [|intros; exact Li]. intros He' Hb'.
+    destruct (take_some s _ _ _ _ _ Li Et) as (Est & Ef & Hf & Hin).
+    destruct (notify_commit_ok (H s) sl (li_h s Li) He (ok_of_live s sl Li Hin) He' Hb') as (Hi' & _ & Hold).
+    apply (LI_weaken s _ [] Li); [exact Hi' | exact Hold | apply Permutation_refl | apply Li | apply Li].
+  - (* CommitBorrow *) cbn [proposal_committed_under_lock]. intros; exact Li.
+  - (* CommitFire *) cbn [proposal_committed_under_lock]. intros; exact Li.
+  - (* CommitC *)
+    destruct (x_match (H s) (C s) key) as [sl|] eqn:Em; [|intros; exact Li]. intros He' Hb'.
+    apply x_match_some in Em.
+    assert (Hin : In sl (live s)) by (unfold live; rewrite Em; cbn; apply in_or_app; right; apply in_or_app; right; left; reflexivity).
+    destruct (notify_commit_ok (H s) sl (li_h s Li) He (ok_of_live s sl Li Hin) He' Hb') as (Hi' & _ & Hold).
+    apply (LI_weaken s _ [] Li); [exact Hi' | exact Hold | apply Permutation_refl | apply Li | apply Li].
+  - (* CloseR *) intros _ Hb. apply closeR_LI; assumption.
+  - (* CloseP *) intros _ Hb. apply closeP_LI; assumption.
+  - (* CloseC *)
+    destruct (x_open (C s)); [|intros; exact Li]. unfold x_close.
+    destruct (x_pend (C s)) as [sl|] eqn:Em; intros _ _.
+    + apply (LI_x_notify s _ (fun _ => SClose) (fun _ => terminated) sl (live_pend s ++ live_reads s) (olist (x_pend (S s)) ++ olist (lq_pend s)) Li He).
+      * apply terminal_const. reflexivity.
+      * unfold live. rewrite Em. cbn [olist]. rewrite <- !app_assoc. reflexivity.
+      * unfold live. cbn. rewrite <- !app_assoc. reflexivity.
+      * reflexivity.
+      * apply Li.
+      * apply Li.
+    + apply (LI_same_heap _ _ Li); [reflexivity | | apply Li | apply Li]. unfold live. cbn. rewrite Em. apply Permutation_refl.
+  - (* CloseS *)
+    unfold x_close. destruct (x_pend (S s)) as [sl|] eqn:Em; intros _ _.
+    + apply (LI_x_notify s _ (fun _ => SClose) (fun _ => terminated) sl (live_pend s ++ live_reads s ++ olist (x_pend (C s))) (olist (lq_pend s)) Li He).
+      * apply terminal_const. reflexivity.
+      * unfold live. rewrite Em. cbn [olist]. rewrite <- !app_assoc. reflexivity.
+      * unfold live. cbn. rewrite <- !app_assoc. reflexivity.
+      * reflexivity.
+      * apply Li.
+      * apply Li.
+    + apply (LI_same_heap _ _ Li); [reflexivity | | apply Li | apply Li]. unfold live. cbn. rewrite Em. apply Permutation_refl.
+  - (* CloseL *)
+    destruct (lq_pend s) as [sl|] eqn:Em; intros _ _.
+    + apply (LI_x_notify s _ (fun _ => SClose) (fun _ => terminated) sl (live_pend s ++ live_reads s ++ olist (x_pend (C s)) ++ olist (x_pend (S s))) [] Li He).
+      * apply terminal_const. reflexivity.
+      * unfold live. rewrite Em. cbn [olist]. rewrite <- !app_assoc. reflexivity.
+      * unfold live. cbn. rewrite <- !app_assoc. reflexivity.
+      * reflexivity.
+      * apply Li.
+      * apply Li.
+    + apply (LI_same_heap _ _ Li); [reflexivity | | apply Li | apply Li]. unfold live. cbn. rewrite Em. apply Permutation_refl.
+Qed.
+
+(* ================================================================== *)
+(* runs                                                                 *)
+Fixpoint env_ok (ops : list op) (s : st) : Prop :=
+  h_broken (H s) = false /\ match ops with [] => True | o :: ops' => env_ok ops' (step s o) end.
+
+Lemma step_LI : forall s o, LI s -> h_broken (H (step s o)) = false -> LI (step s o).
+Proof.
+  intros s o Li. unfold step. destruct (h_err (H s) =? 0) eqn:E0; cbn [negb]; [|intros; exact Li].
+  apply N.eqb_eq in E0. destruct (h_err (H (step0 s o)) =? 0) eqn:E1.
+  - apply N.eqb_eq in E1. intros Hb. apply step0_LI; assumption.
+  - intros _. apply (LI_weaken s _ [] Li); [| | apply Permutation_refl | apply Li | apply Li].
+    + apply (HI_ext (H s)); try reflexivity. apply Li.
+    + intros y Hy. apply (ok_slot_ext (H s)); try reflexivity. exact Hy.
+Qed.
+
+Lemma env_ok_head : forall ops s, env_ok ops s -> h_broken (H s) = false.
+Proof. intros [|o ops] s Hs; apply Hs. Qed.
+
+Lemma run_LI : forall ops s, LI s -> env_ok ops s -> LI (run ops s).
+Proof.
+  induction ops as [|o ops IH]; intros s Li He; [exact Li|]. cbn [run fold_left]. destruct He as [_ He].
+  apply IH; [|exact He]. apply step_LI; [exact Li | apply (env_ok_head ops); exact He].
+Qed.
+
+Lemma init_LI : forall ps nc a b, LI (init ps nc a b).
+Proof.
+  intros. constructor.
+  - constructor; cbn.
+    + intros r. exact I.
+    + intros r e [].
+    + intros o Ho. lia.
+    + intros o Ho. lia.
+    + intros o Ho. lia.
+    + intros o [].
+    + constructor.
+    + intros r Hr. lia.
+    + intros o Ho. lia.
+  - cbn. constructor.
+  - cbn. constructor.
+  - cbn. constructor.
+  - reflexivity.
+Qed.
+
+Lemma reachable_LI : forall ps nc a b ops, env_ok ops (init ps nc a b) -> LI (run ops (init ps nc a b)).
+Proof. intros. apply run_LI; [apply init_LI | assumption]. Qed.
+
+(* ---- the property theorems ---- *)
+Lemma at_most_one_terminal_proved : forall ps nc a b ops, env_ok ops (init ps nc a b) ->
+  forall r, (nterm (got (run ops (init ps nc a b)) r) <= 1)%nat.
+Proof. intros ps nc a b ops He r. apply shape_nterm_le1. apply (hi_shape _ (li_h _ (reachable_LI ps nc a b ops He))). Qed.
+
+Lemma committed_at_most_once_and_first_proved : forall ps nc a b ops, env_ok ops (init ps nc a b) ->
+  forall r, (ncomm (got (run ops (init ps nc a b)) r) <= 1)%nat /\
+            (forall pre e post, got (run ops (init ps nc a b)) r = pre ++ e :: post -> is_committed e = true -> pre = []).
+Proof.
+  intros ps nc a b ops He r. pose proof (hi_shape _ (li_h _ (reachable_LI ps nc a b ops He)) r) as Hs. split.
+  - apply shape_ncomm_le1. exact Hs.
+  - intros pre e post Eg Hc. eapply shape_committed_first; [exact Hs | exact Eg | exact Hc].
+Qed.
+
+Lemma no_cross_talk_proved : forall ps nc a b ops, env_ok ops (init ps nc a b) ->
+  forall r e, In e (got (run ops (init ps nc a b)) r) -> e_to e = r.
+Proof. intros ps nc a b ops He r e. apply (hi_to _ (li_h _ (reachable_LI ps nc a b ops He))). Qed.
+
+(* what a table or queue still references is exactly the requests that have no terminal
+   result yet, each once, through the object that request owns *)
+Lemma live_requests_have_no_result_proved : forall ps nc a b ops, env_ok ops (init ps nc a b) ->
+  let s := run ops (init ps nc a b) in
+  NoDup (map sr (live s)) /\
+  forall sl, In sl (live s) -> nterm (got s (sr sl)) = 0%nat /\ o_owner (h_objs (H s) (so sl)) = sr sl /\
+                               r_rel (h_reqs (H s) (sr sl)) = false.
+Proof.
+  intros ps nc a b ops He s. pose proof (reachable_LI ps nc a b ops He) as Li. fold s in Li. split; [apply Li|].
+  intros sl Hin. destruct (ok_of_live s sl Li Hin) as (_ & _ & C & _ & E & F). auto.
+Qed.
+
+(* F3 repaired: read requests the step worker hands to a stopped table are terminated *)
+Lemma stopped_add_terminates_taken_proved : forall ps nc a b ops lo hi, env_ok ops (init ps nc a b) ->
+  let s := run ops (init ps nc a b) in
+  h_err (H s) = 0 -> rd_stop (R s) = true ->
+  let s' := step s (AddReads lo hi) in
+  h_err (H s') = 0 /\ taken (R s') = [] /\ forall sl, In sl (taken (R s)) -> nterm (got s' (sr sl)) = 1%nat.
+Proof.
+  intros ps nc a b ops lo hi Henv s He Hst. pose proof (reachable_LI ps nc a b ops Henv) as Li. fold s in Li.
+  unfold step. rewrite He. cbn [N.eqb negb step0]. rewrite Hst.
+  destruct (taken (R s)) as [|t0 tk] eqn:Et.
+  - rewrite He. cbn. rewrite Et. repeat split; auto. intros sl [].
+  - cbn [read_add_terminates_when_stopped].
+    unfold notify_all, notify. fold (notifyf_all (fun _ => SClose) (fun _ => terminated) (H s) (t0 :: tk)).
+    set (s1 := setHR s (notifyf_all (fun _ : obj => SClose) (fun _ : obj => terminated) (H s) (t0 :: tk)) (r_set_tb (R s) [] (batches (R s)))).
+    destruct (LI_finish s s1 (map (fun x => (fun _ : obj => SClose, fun _ : obj => terminated, x)) (t0 :: tk)) [] Li He) as (Li1 & Hfr & Hone).
+    + apply Forall_triples. apply terminal_const. reflexivity.
+    + rewrite map_snd_triples. unfold live, live_reads. cbn [s1 R setHR r_set_tb rq taken batches rd_stop P C S lq_pend app].
+      rewrite Et, Hst. change (live_pend (setHR s _ _)) with (live_pend s).
+      apply (perm_mid _ (live_pend s) _ _ _ (t0 :: tk) []). cbn [app]. rewrite !app_nil_r.
+      apply (Permutation_app_comm (rq (R s)) (t0 :: tk)).
+    + cbn [s1 H setHR]. apply notifyf_all_nseq.
+    + apply Li.
+    + apply Li.
+    + destruct Hfr as (E1 & _). rewrite E1. cbn [N.eqb]. split; [exact E1|]. split; [reflexivity|].
+      intros sl Hin. apply Hone. rewrite map_snd_triples. exact Hin.
 Qed.
